@@ -362,3 +362,154 @@ pub fn gen_c09(rng: &mut Rng, d: &mut Dist) -> Vec<String> {
     }
     out
 }
+
+impl Cluster {
+    /// like `random` but with unusual node ids, ports and UTF-8 host names
+    pub fn random_wild(rng: &mut Rng, maxp: u64, leaderless: bool) -> Cluster {
+        let mut c = Cluster::random(rng, maxp, leaderless);
+        let ids = [0i32, 1, 2, 3, 7, 1000, i32::MAX, -5, 65536];
+        let hosts = ["b1", "b2", "b3", "kafka-0.internal", "h\u{e4}st", "10.0.0.1", "x"];
+        let ports = [9092i32, 1, 65535, 0, i32::MAX, 19092];
+        let mut used: Vec<i32> = Vec::new();
+        let mut used_hosts: Vec<String> = Vec::new();
+        let n = c.brokers.len();
+        let old: Vec<i32> = c.brokers.iter().map(|b| b.0).collect();
+        let mut new_brokers = Vec::new();
+        for _ in 0..n {
+            let mut id = *rng.pick(&ids);
+            while used.contains(&id) {
+                id = *rng.pick(&ids);
+            }
+            used.push(id);
+            let mut hp = format!("{}:{}", rng.pick(&hosts), rng.pick(&ports));
+            while used_hosts.contains(&hp) {
+                hp = format!("{}:{}", rng.pick(&hosts), rng.pick(&ports));
+            }
+            used_hosts.push(hp.clone());
+            let (hst, port) = hp.rsplit_once(':').unwrap();
+            new_brokers.push((id, hst.to_string(), port.parse::<i32>().unwrap()));
+        }
+        for t in &mut c.topics {
+            for l in &mut t.leaders {
+                if *l >= 0 {
+                    let idx = old.iter().position(|x| x == l).unwrap();
+                    *l = new_brokers[idx].0;
+                }
+            }
+        }
+        c.brokers = new_brokers;
+        c
+    }
+
+    /// leaderless is encoded as −1 in `leaders`; node ids may be negative in wild clusters, so use this to test
+    pub fn has_leader(&self, t: &str, p: usize) -> bool {
+        self.topics.iter().find(|x| x.name == t).map(|x| x.leaders[p] != -1).unwrap_or(false)
+    }
+
+    pub fn setup_lines_wild(&self) -> Vec<String> {
+        let mut out = Vec::new();
+        for (id, host, port) in &self.brokers {
+            out.push(format!("BROKER {} {} {}", id, h(host), port));
+        }
+        for t in &self.topics {
+            out.push(format!("TOPIC {} {}", h(&t.name), t.leaders.len()));
+            for (p, l) in t.leaders.iter().enumerate() {
+                if *l != -1 {
+                    out.push(format!("LEADER {} {} {}", h(&t.name), p, l));
+                }
+            }
+        }
+        out.push(format!("COORD {}", self.brokers[0].0));
+        out
+    }
+}
+
+/// C10: arbitrary well-formed content through every response type: unusual node ids / ports / UTF-8 names,
+/// extreme offsets and high-watermarks, committed offsets incl. none, several brokers, response orders.
+pub fn gen_c10(rng: &mut Rng, d: &mut Dist) -> Vec<String> {
+    let maxp = *rng.pick(&[1u64, 3, 5]);
+    let mut cl = Cluster::random_wild(rng, maxp, true);
+    // −1 as a node id would read as "no leader": avoid it (documented protocol meaning)
+    for b in &mut cl.brokers {
+        if b.0 == -1 {
+            b.0 = -2;
+        }
+    }
+    let mut out = cl.setup_lines_wild();
+    let ext = [0i64, 1, 5, 1000, i64::MAX, i64::MAX - 1, 1 << 33];
+    for t in &cl.topics {
+        for p in 0..t.leaders.len() {
+            let e = *rng.pick(&ext);
+            let hw = if rng.chance(1, 3) { e } else { e.saturating_add(rng.below(1000) as i64) };
+            out.push(format!("EARLIEST {} {} {}", h(&t.name), p, e));
+            out.push(format!("HW {} {} {}", h(&t.name), p, hw));
+            if rng.chance(1, 2) {
+                out.push(format!("COMMITTED {} {} {} {}", h("grp"), h(&t.name), p, rng.pick(&ext)));
+                bump(d, "committed");
+            }
+        }
+    }
+    match rng.below(3) {
+        0 => {}
+        1 => {
+            out.push("ORDER rev".into());
+            bump(d, "order-rev");
+        }
+        _ => {
+            out.push(format!("ORDER rot {}", 1 + rng.below(3)));
+            bump(d, "order-rot");
+        }
+    }
+    bump(d, &format!("brokers-{}", cl.brokers.len()));
+    out.push(format!("OP client_new {}", cl.bootstrap()));
+    out.push(format!("OP c set storage {}", rng.pick(&["zk", "kafka"])));
+    out.push("OP c load_metadata_all".into());
+    out.push("OP c topics".into());
+    let names: Vec<String> = cl.topics.iter().map(|t| t.name.clone()).collect();
+    let nops = 2 + rng.below(6);
+    for _ in 0..nops {
+        let k = 1 + rng.below(3) as usize;
+        let mut ts: Vec<String> = (0..k).map(|_| h(rng.pick(&names[..]).as_str())).collect();
+        if rng.chance(1, 5) {
+            ts.push(h("unknown"));
+        }
+        match rng.below(6) {
+            0 => {
+                bump(d, "op-fetch_offsets");
+                out.push(format!("OP c fetch_offsets {} {}", rng.pick(&[-1i64, -2, 0, 5, 123456789]), ts.join(" ")));
+            }
+            1 => {
+                bump(d, "op-list_offsets");
+                out.push(format!("OP c list_offsets {} {}", rng.pick(&[-1i64, -2, 0, 77, i64::MAX]), ts.join(" ")));
+            }
+            2 => {
+                bump(d, "op-fetch_group_offsets");
+                let mut line = format!("OP c fetch_group_offsets {}", h("grp"));
+                for _ in 0..(1 + rng.below(5)) {
+                    let t = rng.pick(&cl.topics);
+                    line.push_str(&format!(" {} {}", h(&t.name), rng.below(t.leaders.len() as u64)));
+                }
+                out.push(line);
+            }
+            3 => {
+                bump(d, "op-fetch_group_topic_offset");
+                out.push(format!("OP c fetch_group_topic_offset {} {}", h("grp"), h(rng.pick(&names[..]).as_str())));
+            }
+            4 => {
+                bump(d, "op-produce");
+                let mut line = String::from("OP c produce 1 1 0");
+                for i in 0..(1 + rng.below(4)) {
+                    let t = rng.pick(&cl.topics);
+                    line.push_str(&format!(" {} {} ~ {:02x}", h(&t.name), rng.below(t.leaders.len() as u64), i));
+                }
+                out.push(line);
+            }
+            _ => {
+                bump(d, "op-topics");
+                out.push("OP c load_metadata_all".into());
+                out.push("OP c topics".into());
+            }
+        }
+    }
+    out
+}
